@@ -209,7 +209,7 @@ func VH_C11_Consumers() {
 	x.enterRound(1, 0)
 	all := uint64(1<<uint(n) - 1)
 
-	script := verifrt.Choose("script", 4)
+	script := verifrt.Choose("script", 5)
 	var nilRounds []uint32
 	switch script {
 	case 0: // votes grow within the round
@@ -231,10 +231,20 @@ func VH_C11_Consumers() {
 		x.vote(true, 1, 1, "", 7, 2)
 		nilRounds = []uint32{0, 1}
 		x.maybeRead()
-	default: // minority prevote for the next round: jump
+	case 3: // minority prevote for the next round: jump
 		x.vote(false, 1, 0, "A", 1, 1)
 		x.maybeRead()
 		x.vote(false, 1, 1, "B", 2, 2)
+		x.maybeRead()
+	default: // round entrance racing with a view shift: the mirror jumps to round 1 while the
+		// state machine is slow; the state machine then enters round 1 on its own (its timer
+		// elapsed) before reading, and one more vote arrives for round 1
+		x.vote(false, 1, 1, "B", 6, 1)
+		if verifrt.Choose("sm-reads-before-entering", 2) == 1 {
+			x.drainSM()
+		}
+		x.enterRound(1, 1)
+		x.vote(false, 1, 1, "B", 1, 2)
 		x.maybeRead()
 	}
 	verifrt.Reach("script-delivered")
@@ -265,5 +275,8 @@ func VH_C11_Consumers() {
 	if script == 3 && v.Round == 1 {
 		verifrt.Reach("jumped")
 		verifrt.Assert(x.jumped, "C11:sm:told-about-the-skipped-round")
+	}
+	if script == 4 {
+		verifrt.Reach("entered-while-jump-pending")
 	}
 }
